@@ -1,5 +1,6 @@
 import Lean.Data.Json
 import Glom.Spec.C05
+import Glom.Spec.C05Tree
 /-
   C05 driver.  case: {"events":[["enter",parent,flagged,spec,target,tid,tlen|null,slen|null] | ["ok"] | ["err",e]…],
                       "errors":[[e, text]…], "root_error":e, "width":w, "impl":{"trace": text}}
@@ -48,7 +49,19 @@ def run (j : Json) : Except String Json := do
   let unrendered := errs.any (fun e => isInfix "<exception str() failed>".toList e.2)
   let holds := !strFailed && !unrendered && checkC05 evs errText rootError impl && tailOK
   let modelHolds := checkC05 evs errText rootError model
-  return Json.mkObj [("agree", model == impl), ("holds", holds), ("model_holds", modelHolds), ("clauses", toJson (clausesC05 evs errText rootError impl)),
+  -- the tie of the structural theorems (Props/C05Spine) to the code: the recorded evaluation must
+  -- be the event list of a well-formed evaluation tree whose root raises the root error
+  let domainWhy : String :=
+    match treeOf evs with
+    | none => "the recorded events are not the events of an evaluation tree (a call made with a scope that is neither the node's own nor chain_child of it)"
+    | some t =>
+      if events t != evs then "events (treeOf evs) differs from the recorded events"
+      else if t.err != rootError then "the root call did not raise the root error"
+      else if !chainOk true t.root then "a chained step continues from a sub-evaluation that raised"
+      else if !onePath t.err t.kids then "the root error is the outcome of a call outside the propagation path"
+      else ""
+  let inDom := domainWhy == ""
+  return Json.mkObj [("agree", model == impl && inDom), ("holds", holds), ("in_domain", inDom), ("domain_why", domainWhy), ("model_holds", modelHolds), ("clauses", toJson (clausesC05 evs errText rootError impl)),
     ("why", if holds then "" else if strFailed then "str(exc) raised: the error has no message" else if unrendered then "the message of an error in the trace could not be rendered: its __str__ raised" else if !tailOK then "the message does not end with the type and message of the original error" else "the trace does not begin with the root target / list the failing path in order / show the failing spec's target / show every failed branch"),
     ("model", Json.mkObj [("trace", model)]),
     ("branch", (if branching then "branching" else "linear") ++ (if chained then "+chain" else "") ++
